@@ -289,6 +289,16 @@ def storage_map(ck, prog):
             ok = False
             if term[0] == "agg" and term[1].endswith(("RangeFull::RangeFull", "RangeFull")):
                 ok = True
+
+            def _whole(hi):
+                d = dim_of(hi)
+                return bool((d and d[0] == "len" and any(s[0] == "field" and s[2] == "values" for s in subterms(hi))) or
+                            Prod(Dim("rows", 1), Dim("cols", 1))(hi))
+            # a slice of the whole buffer: values[..len], values[0..len]
+            if term[0] == "agg" and term[1].endswith(("RangeTo::RangeTo", "RangeTo")) and term[2] and _whole(term[2][0]):
+                ok = True
+            if term[0] == "agg" and term[1].endswith("Range::Range") and len(term[2]) == 2 and term[2][0] == ("int", 0) and _whole(term[2][1]):
+                ok = True
             it = term
             if it[0] == "field" and it[2] == "0" and it[1][0] == "variant" and it[1][2] == "Some" and it[1][1][0] == "call" \
                     and it[1][1][1].endswith("Iterator::next"):
@@ -461,7 +471,7 @@ def dot_operands_are_vectors(ck, prog):
         ck.violation(rule, inst, "dot", "", expected="anchor exists", found=f"anchor vanished: {e}")
         return
     from sa.siblings import dot_vector_gate
-    ntests, bad = dot_vector_gate(b)
+    ntests, bad = dot_vector_gate(b, prog)
     tests = [None] * ntests
     site = f"{b.loc[0]}:{b.loc[1]}"
     if bad:
